@@ -4,6 +4,8 @@
 def compare(op, impl, model, rep):
     if isinstance(model, dict) and "model_error" in model:
         return "model error: " + str(model["model_error"])
+    if op.get("c") == "retry.e2e":
+        return None if impl == model else "end-to-end attempts/result differ"
     if op.get("c") != "retry.execute":
         return None if impl == model else "outcomes differ"
     if impl["attempts"] != model["attempts"]:
@@ -18,9 +20,9 @@ def compare(op, impl, model, rep):
     slack = max(150_000_000, 4 * jitter)
     for k, (w, g) in enumerate(zip(waits, gaps)):
         if g < w:
-            return "wait %d shorter than the model's: %d < %d ns" % (k + 1, g, w)
+            return "VIOLATES: a wait is shorter than InitialBackoff x Factor^(k-1) capped at MaxBackoff (theorem C17_wait_k): wait %d was %d ns, formula gives %d ns" % (k + 1, g, w)
         if g > w + slack:
             if g > w + 20 * slack:
-                return "wait %d much longer than the model's: %d vs %d ns" % (k + 1, g, w)
+                return "VIOLATES: a wait is much longer than InitialBackoff x Factor^(k-1) capped at MaxBackoff (theorem C17_wait_k): wait %d was %d ns, formula gives %d ns" % (k + 1, g, w)
             return "noise"
     return None
